@@ -26,7 +26,7 @@
 From Coq Require Import ZArith QArith Qminmax List.
 From VL Require Import Prelude.PyDict Model.GetNBest Model.Convert Model.Cardinal Proofs.Cardinal_proofs
      Proofs.MJ_proofs Proofs.JR_proofs Model.Condorcet Model.Star Proofs.Star_proofs
-     Model.Quota Model.AllocScore Proofs.AllocScore_proofs.
+     Model.Quota Model.AllocScore Proofs.AllocScore_proofs Proofs.MJ_removal_proofs.
 From Coq Require Import Permutation.
 Import ListNotations.
 Close Scope Q_scope.
@@ -393,6 +393,35 @@ Theorem C12_alloc_zero_weight_refuted : exists cur : wprofile,
 Proof. exists w_zero. exact alloc_zero_weight_witness. Qed.
 
 
+(* ---- majority judgment, default tie-break: the multi-copy removal step is the documented one-at-a-time rule.
+   [sub]: candidate -> (grade -> count); cs_ok = counts >= 0 and the grades of a dictionary distinct as numbers
+   (dictionaries built by cs_set are); [mj_successive k]: k times, recompute every candidate's lower median and
+   remove ONE copy of it from each.  One round of the loop (mj_round: the candidates T on the shared highest
+   median stay and mj_ch copies of that grade leave each of them at once) equals mj_ch such single rounds among T;
+   while fewer than mj_ch copies are gone every candidate of T still has the median it had (so nobody falls behind
+   or gets ahead in between and the intermediate comparisons the code skips could not have decided anything);
+   the state after the round satisfies the hypotheses again. *)
+Theorem C12_mj_multi_copy : forall sub medians T,
+  NoDup (map fst sub) -> Forall cs_ok sub -> aggregate FMedianLow sub = inl medians ->
+  let lvl := mj_level sub T in
+  let ch := mj_ch lvl medians in
+  mj_successive (Z.to_nat ch) lvl = inl (mj_round sub medians T) /\
+  (forall j, (0 <= j < ch)%Z -> medians_of (mj_remove lvl medians j) medians) /\
+  NoDup (map fst (mj_round sub medians T)) /\ Forall cs_ok (mj_round sub medians T).
+Proof. exact mj_round_successive. Qed.
+
+(* the same for any set of candidates whose current medians [medians] holds *)
+Theorem C12_mj_multi_copy_general : forall sub medians,
+  NoDup (map fst sub) -> Forall cs_ok sub -> medians_of sub medians ->
+  (forall j, (0 <= j < mj_ch sub medians)%Z -> medians_of (mj_remove sub medians j) medians) /\
+  mj_successive (Z.to_nat (mj_ch sub medians)) sub = inl (mj_remove sub medians (mj_ch sub medians)).
+Proof. exact mj_multi_copy_successive. Qed.
+
+Example C12_mj_multi_copy_example :
+  NoDup (map fst ex_sub) /\ Forall cs_ok ex_sub /\ aggregate FMedianLow ex_sub = inl ex_med /\
+  mj_ch ex_sub ex_med = 2%Z /\ mj_successive 2 ex_sub = inl (mj_remove ex_sub ex_med 2).
+Proof. exact mj_multi_copy_example. Qed.
+
 Print Assumptions C12_combinations_complete.
 Print Assumptions C12_combinations_sound.
 Print Assumptions C12_pav_optimal.
@@ -427,3 +456,5 @@ Print Assumptions C12_alloc_tie_shape_refuted.
 Print Assumptions C12_alloc_tie_order_refuted.
 Print Assumptions C12_alloc_tie_second_refuted.
 Print Assumptions C12_alloc_zero_weight_refuted.
+Print Assumptions C12_mj_multi_copy.
+Print Assumptions C12_mj_multi_copy_general.
